@@ -83,9 +83,9 @@ def run(ctx):
     ctx.oblige("observation: every status returned on the corpus lies in the lint's static status set (soundness of the facts); no unlisted naming violation observed",
                not [v for v in mon if (ctx.pid, v["key"]) not in ctx.known])
     st = d.get("stats", {})
-    ctx.add_eval(st.get("lint_results_observed", 0), distinct=sum(len(v) for v in observed.values()), traces=st.get("lint_results_observed", 0))
+    ctx.add_eval(st.get("lint_results_observed", 0) + st.get("configured_results_observed", 0) + st.get("date_sweep_runs", 0), distinct=sum(len(v) for v in observed.values()), traces=st.get("lint_results_observed", 0))
     ctx.cov["rule"] = ("static: for each of the registered lints the closure of module-internal functions reachable from constructor/Configure/CheckApplies/Execute is scanned for "
-                      "stores into LintResult.Status (constants resolved through phi nodes and status cells); dynamic: every lint on every corpus certificate, CRL and OCSP response; "
+                      "stores into LintResult.Status (constants resolved through phi nodes and status cells); dynamic: every lint on every corpus and zoo certificate, CRL and OCSP response, again under user configurations (options changed, unknown / misspelt keys, sections for lints without options), and re-dated to every registry date; "
                       "distinct = distinct (lint, observed status) pairs")
     ctx.notes["static_pairs"] = sum(len(x["MayReturn"] or []) for x in facts)
     ctx.notes["lints"] = len(facts)
